@@ -72,6 +72,8 @@ def _tonum(v):
         return sympy.Integer(int(v))
     if isinstance(v, (float, np.floating)):
         f = float(v)
+        if math.isnan(f) or math.isinf(f):
+            return sympy.nan
         if f == int(f) and abs(f) < 1e9:
             return sympy.Integer(int(f))
         return sympy.Float(f)
@@ -282,7 +284,14 @@ def eval_model(model, point, amounts='input'):
     amounts='ode'  : A_x(t) come from the reference solution of the compartmental system at point['t']"""
     from pharmpy.model import Assignment, CompartmentalSystem
 
-    env = dict(point)
+    # inputs a model may read: its own parameters, random variables, data columns, t and the amounts of
+    # its own compartmental system -- a value for any other name in `point` is not visible to it
+    declared = set(model.parameters.names) | set(model.random_variables.names) | set(model.datainfo.names)
+    declared.add('t')
+    cs = model.statements.ode_system
+    if cs is not None:
+        declared |= {_sname(c.amount) for c in cs._g.nodes if hasattr(c, 'amount')}
+    env = {k: v for k, v in point.items() if k in declared}
     defined = {}
     sig = None
     for s in model.statements:
@@ -1628,7 +1637,8 @@ def _run_remove_iiv(case, K):
         fail('exactly the IIV etas named (or acting on the named parameter) are removed',
              f'removed {sorted(removed)}, expected {sorted(expected)}')
     dvs, ips = _observables(m0)
-    for pt in _grid(m0, K):
+    for pt, extra in zip(_grid(m0, K), _grid(m1, K)):
+        pt = dict(extra, **pt)
         q = dict(pt)
         for e in expected:
             q[e] = 0.0
@@ -1850,8 +1860,11 @@ def _run_transform(case, K):
     etas = list(sel) if sel is not None else list(m0.random_variables.etas.names)
     new_th = [n for n in m1.parameters.names if n not in m0.parameters.names]
     if len(new_th) != len(etas):
-        fail('one new theta per transformed eta', f'{etas} -> {new_th}')
-        return {'nontrivial': True, 'fails': fail.items}
+        fail('one new theta per transformed eta ("If None, all etas will be transformed")', f'{etas} -> {new_th}')
+        if sel is None and len(new_th) == len(m0.random_variables.iiv.names):
+            etas = list(m0.random_variables.iiv.names)   # go on with the etas that were transformed
+        else:
+            return {'nontrivial': True, 'fails': fail.items}
     for n in new_th:
         p = m1.parameters[n]
         got = (float(p.init), float(p.lower), float(p.upper))
@@ -2139,7 +2152,11 @@ def _check_error_step(name, prev, new, y, fail, K):
                     continue
                 prop = close(w0b[e] / w0[e], f0b / f0, rtol=1e-6)
                 want = (w0[e] / f0 if prop else w0[e]) * f0 ** pt[th]
-                if not close(want, w1[e], rtol=1e-7):
+                # documented (example): a purely proportional weight f becomes f**theta.  For a weight
+                # c*f with another factor c the documentation does not say whether the factor f is
+                # replaced or kept: both readings of "applies a power effect" are accepted there.
+                alt = w0[e] * f0 ** pt[th] if prop and not close(w0[e], f0, rtol=1e-9) else want
+                if not close(want, w1[e], rtol=1e-7) and not close(alt, w1[e], rtol=1e-7):
                     fail('weight of each epsilon is multiplied by prediction**theta (replacing a factor '
                          'prediction when the weight is proportional to it)',
                          f'{e}: old weight {w0[e]!r} ({"proportional" if prop else "not proportional"} to f), '
@@ -2238,6 +2255,352 @@ def bounded_extensions(tier):
 
 def bounded_extensions_replay(rp):
     res = run_extension_case(rp['case'], rp.get('tier', 'quick'))
+    want = rp.get('clause')
+    for fid, clause, detail in res['fails']:
+        if want is None or clause == want:
+            return False, detail[:900]
+    return True, 'ok'
+
+
+# ----------------------------------------------------------------------------------------------
+# (3) structural setters  -- C08
+# ----------------------------------------------------------------------------------------------
+
+def _requests():
+    P = pm()
+    return {
+        'ABS_FO': (P.set_first_order_absorption, lambda m: P.set_first_order_absorption(m), ('abs', 'FO')),
+        'ABS_ZO': (P.set_zero_order_absorption, lambda m: P.set_zero_order_absorption(m), ('abs', 'ZO')),
+        'ABS_SEQ': (P.set_seq_zo_fo_absorption, lambda m: P.set_seq_zo_fo_absorption(m), ('abs', 'SEQ-ZO-FO')),
+        'ABS_INST': (P.set_instantaneous_absorption, lambda m: P.set_instantaneous_absorption(m), ('abs', 'INST')),
+        'ELIM_FO': (P.set_first_order_elimination, lambda m: P.set_first_order_elimination(m), ('elim', 'FO')),
+        'ELIM_ZO': (P.set_zero_order_elimination, lambda m: P.set_zero_order_elimination(m), ('elim', 'ZO')),
+        'ELIM_MM': (P.set_michaelis_menten_elimination, lambda m: P.set_michaelis_menten_elimination(m),
+                    ('elim', 'MM')),
+        'ELIM_MIX': (P.set_mixed_mm_fo_elimination, lambda m: P.set_mixed_mm_fo_elimination(m),
+                     ('elim', 'MIX-FO-MM')),
+        'PERIPH_0': (P.set_peripheral_compartments, lambda m: P.set_peripheral_compartments(m, 0), ('periph', 0)),
+        'PERIPH_1': (P.set_peripheral_compartments, lambda m: P.set_peripheral_compartments(m, 1), ('periph', 1)),
+        'PERIPH_2': (P.set_peripheral_compartments, lambda m: P.set_peripheral_compartments(m, 2), ('periph', 2)),
+        'TRANSIT_0': (P.set_transit_compartments, lambda m: P.set_transit_compartments(m, 0), ('transits', 0)),
+        'TRANSIT_1': (P.set_transit_compartments, lambda m: P.set_transit_compartments(m, 1), ('transits', 1)),
+        'TRANSIT_3': (P.set_transit_compartments, lambda m: P.set_transit_compartments(m, 3), ('transits', 3)),
+        'LAG_ON': (P.add_lag_time, lambda m: P.add_lag_time(m), ('lag', True)),
+        'LAG_OFF': (P.remove_lag_time, lambda m: P.remove_lag_time(m), ('lag', False)),
+        'BIO_ON': (P.add_bioavailability, lambda m: P.add_bioavailability(m), ('bio', True)),
+        'BIO_OFF': (P.remove_bioavailability, lambda m: P.remove_bioavailability(m), ('bio', False)),
+    }
+
+
+_REQ_NAMES = ['ABS_FO', 'ABS_ZO', 'ABS_SEQ', 'ABS_INST', 'ELIM_FO', 'ELIM_ZO', 'ELIM_MM', 'ELIM_MIX', 'PERIPH_0',
+              'PERIPH_1', 'PERIPH_2', 'TRANSIT_0', 'TRANSIT_1', 'TRANSIT_3', 'LAG_ON', 'LAG_OFF', 'BIO_ON',
+              'BIO_OFF']
+
+_INTERNAL = (KeyError, AttributeError, AssertionError, IndexError, StopIteration, TypeError)
+
+
+def _is_refusal(e):
+    """a documented refusal: ValueError / NotImplementedError raised by the setter itself.  A ValueError
+    "Symbol X is not defined" comes from Model._canonicalize_statements: the setter produced inconsistent
+    statements, which is an internal error, not a refusal"""
+    if not isinstance(e, (ValueError, NotImplementedError)):
+        return False
+    if isinstance(e, ValueError) and 'is not defined' in str(e):
+        return False
+    return True
+
+
+def graph_features(model):
+    """features read directly from the compartment graph (independent of pharmpy's detectors)"""
+    from pharmpy.model import Compartment
+
+    cs = model.statements.ode_system
+    comps = [c for c in cs._g.nodes if isinstance(c, Compartment)]
+    dosed = [c for c in comps if c.doses]
+    lag = any(_sp(c.lag_time) != 0 for c in comps)
+    bio = any(_sp(c.bioavailability) != 1 for c in dosed)
+    return {'lag': lag, 'bio': bio, 'ncomp': len(comps)}
+
+
+def detect(model):
+    """state per category as reported by pharmpy's detectors, combined with the priority that
+    pharmpy.tools.mfl.parse.get_model_features uses (SEQ-ZO-FO > ZO > FO > INST; MIX-FO-MM > ZO > FO > MM);
+    the covariate part of get_model_features is not needed and skipped (it dominates its run time)"""
+    from pharmpy.modeling.odes import has_lag_time
+
+    P = pm()
+    st = {'abs': None, 'elim': None}
+    for val, fn in (('SEQ-ZO-FO', P.has_seq_zo_fo_absorption), ('ZO', P.has_zero_order_absorption),
+                    ('FO', P.has_first_order_absorption), ('INST', P.has_instantaneous_absorption)):
+        if fn(model):
+            st['abs'] = val
+            break
+    for val, fn in (('MIX-FO-MM', P.has_mixed_mm_fo_elimination), ('ZO', P.has_zero_order_elimination),
+                    ('FO', P.has_first_order_elimination), ('MM', P.has_michaelis_menten_elimination)):
+        if fn(model):
+            st['elim'] = val
+            break
+    st['periph'] = P.get_number_of_peripheral_compartments(model)
+    st['transits'] = P.get_number_of_transit_compartments(model)
+    st['lag'] = bool(has_lag_time(model))
+    st['bio'] = bool(P.get_bioavailability(model))
+    st['mfl'] = (f"ABSORPTION({st['abs']});ELIMINATION({st['elim']});PERIPHERALS({st['periph']});"
+                 f"TRANSITS({st['transits']});LAGTIME({'ON' if st['lag'] else 'OFF'});BIO({'ON' if st['bio'] else 'OFF'})")
+    return st
+
+
+_HAS = {
+    ('abs', 'FO'): 'has_first_order_absorption', ('abs', 'ZO'): 'has_zero_order_absorption',
+    ('abs', 'SEQ-ZO-FO'): 'has_seq_zo_fo_absorption', ('abs', 'INST'): 'has_instantaneous_absorption',
+    ('elim', 'FO'): 'has_first_order_elimination', ('elim', 'ZO'): 'has_zero_order_elimination',
+    ('elim', 'MM'): 'has_michaelis_menten_elimination', ('elim', 'MIX-FO-MM'): 'has_mixed_mm_fo_elimination',
+}
+
+
+def expected_state(before, cat, val):
+    """reference transition on the abstract feature state.  Every category other than the requested one
+    is unchanged, except for the couplings pharmpy documents:
+      * instantaneous absorption has no absorption phase: no transit compartments, and "lagtime together
+        with instantaneous absorption is not supported" (docstring) -> lag time removed
+      * transit compartments on instantaneous absorption "cannot be distinguished from first order
+        absorption" (refusal text of set_transit_compartments) -> absorption becomes FO
+    """
+    new = {k: before[k] for k in ('abs', 'elim', 'periph', 'transits', 'lag', 'bio')}
+    new[cat] = val
+    if cat == 'abs' and val == 'INST':
+        new['transits'] = 0
+        new['lag'] = False
+    if cat == 'transits' and val > 0 and before['abs'] == 'INST':
+        new['abs'] = 'FO'
+    return new
+
+
+def _undo_request(before, cat):
+    """the request that restores category `cat` to its value in `before`"""
+    v = before[cat]
+    table = {('abs', 'FO'): 'ABS_FO', ('abs', 'ZO'): 'ABS_ZO', ('abs', 'SEQ-ZO-FO'): 'ABS_SEQ',
+             ('abs', 'INST'): 'ABS_INST', ('elim', 'FO'): 'ELIM_FO', ('elim', 'ZO'): 'ELIM_ZO',
+             ('elim', 'MM'): 'ELIM_MM', ('elim', 'MIX-FO-MM'): 'ELIM_MIX', ('periph', 0): 'PERIPH_0',
+             ('periph', 1): 'PERIPH_1', ('periph', 2): 'PERIPH_2', ('transits', 0): 'TRANSIT_0',
+             ('transits', 1): 'TRANSIT_1', ('transits', 3): 'TRANSIT_3', ('lag', True): 'LAG_ON',
+             ('lag', False): 'LAG_OFF', ('bio', True): 'BIO_ON', ('bio', False): 'BIO_OFF'}
+    return table.get((cat, v))
+
+
+def _structure(model):
+    """shape of the model up to initial estimates: compartment graph, dose kinds, presence of lag time and
+    bioavailability, parameter and random variable names"""
+    from pharmpy.model import Compartment
+
+    cs = model.statements.ode_system
+    comps = sorted((c.name, tuple(sorted(type(d).__name__ for d in c.doses)), _sp(c.lag_time) != 0,
+                    _sp(c.bioavailability) != 1) for c in cs._g.nodes if isinstance(c, Compartment))
+    edges = sorted((u.name, getattr(v, 'name', 'OUTPUT')) for u, v in cs._g.edges())
+    return {'comps': comps, 'edges': edges, 'parameters': sorted(model.parameters.names),
+            'rvs': sorted(model.random_variables.names)}
+
+
+def _equivalent(fail, clause, ma, mb, K, need_same_names):
+    """ma ~ mb: same shape; and when the parameter / rv names agree, the same model function on the grid"""
+    sa, sb = _structure(ma), _structure(mb)
+    for k in ('comps', 'edges'):
+        if sa[k] != sb[k]:
+            fail(clause, f'{k}: {sa[k]} vs {sb[k]}')
+            return False
+    same_names = sa['parameters'] == sb['parameters'] and sa['rvs'] == sb['rvs']
+    if not same_names:
+        if need_same_names:
+            fail(clause, f"parameters/random variables differ: {sorted(set(sa['parameters']) ^ set(sb['parameters']))} "
+                         f"{sorted(set(sa['rvs']) ^ set(sb['rvs']))}")
+            return False
+        if len(sa['parameters']) != len(sb['parameters']) or len(sa['rvs']) != len(sb['rvs']):
+            fail(clause, f"number of parameters / random variables differs: {sa['parameters']} vs {sb['parameters']}; "
+                         f"{sa['rvs']} vs {sb['rvs']}")
+            return False
+        return True
+    dvs, ips = _observables(ma)
+    for pt in _grid(ma, K):
+        ra = _eval_or_none(ma, pt)
+        if ra is None:
+            continue
+        try:
+            db, sigb, _ = eval_model(mb, pt)
+        except Undefined as e:
+            fail(clause, f'not evaluable: {e}')
+            return False
+        for n in dvs:
+            if n in ra[0] and not _isbad(ra[0][n]) and (n not in db or not close(ra[0][n], db[n], rtol=1e-7)):
+                fail(clause, f'{n}: {ra[0][n]!r} vs {db.get(n)!r} at {_short_pt(pt)}')
+                return False
+        diff = sig_diff(ra[1], sigb)
+        if diff:
+            fail(clause, f'compartmental system: {diff}')
+            return False
+    return True
+
+
+def structural_cases(tier):
+    cases = []
+    for mname in ('pheno', 'moxo'):
+        for a in _REQ_NAMES:
+            cases.append({'model': mname, 'requests': [a]})
+        for a in _REQ_NAMES:
+            for b in _REQ_NAMES:
+                cases.append({'model': mname, 'requests': [a, b]})
+        if tier == 'thorough':
+            # pruned: three requests from three different categories
+            R = _requests()
+            for a in _REQ_NAMES:
+                for b in _REQ_NAMES:
+                    for c in _REQ_NAMES:
+                        cats = {R[a][2][0], R[b][2][0], R[c][2][0]}
+                        if len(cats) == 3:
+                            cases.append({'model': mname, 'requests': [a, b, c]})
+    return cases
+
+
+def run_structural_case(case, tier='quick'):
+    K = 3
+    R = _requests()
+    m = base_model(case['model'])
+    tag = f"{case['model']} " + ' ; '.join(case['requests'])
+    fails = []
+    info = {'refused': False}
+    for step, rn in enumerate(case['requests']):
+        fn, run, (cat, val) = R[rn]
+        last = step == len(case['requests']) - 1
+        fail = _Fails(_fid(fn), tag + f' (step {step + 1}: {rn})')
+        prev = m
+        snap = _snapshot(prev) if last else None
+        try:
+            m = run(prev)
+        except Exception as e:
+            if _is_refusal(e):
+                info['refused'] = True
+                info['refusal'] = f'{type(e).__name__}: {str(e)[:100]}'
+                break
+            kind = 'internal error' if isinstance(e, _INTERNAL) or isinstance(e, ValueError) \
+                else 'undocumented exception type'
+            fail('a request either succeeds or is refused with ValueError/NotImplementedError, never an '
+                 'internal error', f'{kind}: {_exc_detail(e)}')
+            fails.extend(fail.items)
+            info['refused'] = True
+            break
+        if not last:
+            continue
+        if not all(a == b for a, b in zip(snap, _snapshot(prev))):
+            fail('input model is not modified', 'input model changed')
+        # precondition: the model before the last request is sound (a defect of an earlier request is
+        # reported by the shorter sequence that ends with it)
+        try:
+            eval_model(prev, _grid(prev, 1)[0])
+            gprev = graph_features(prev)
+            before = detect(prev)
+        except Exception:
+            info['refused'] = True
+            break
+        if gprev['lag'] != before['lag'] or gprev['bio'] != before['bio']:
+            info['refused'] = True
+            break
+        try:
+            after = detect(m)
+        except Exception as e:
+            fail('detectors complete without an exception', _exc_detail(e))
+            fails.extend(fail.items)
+            break
+        want = expected_state(before, cat, val)
+        if after[cat] != val:
+            fail('the detector of the requested category reports exactly the requested feature',
+                 f'requested {cat}={val}; before {before["mfl"]}; after {after["mfl"]} (bio {after["bio"]})')
+        other = {k: (want[k], after[k]) for k in want if k != cat and want[k] != after[k]}
+        if other:
+            fail('the other feature categories are unchanged (except documented couplings)',
+                 f'{ {k: f"expected {a}, detected {b}" for k, (a, b) in other.items()} }; before {before["mfl"]}; '
+                 f'after {after["mfl"]} (bio {after["bio"]})')
+        P = pm()
+        h = _HAS.get((cat, val))
+        if h is not None and after[cat] == val:
+            try:
+                if not getattr(P, h)(m):
+                    fail('the detector of the requested category reports exactly the requested feature',
+                         f'{h}() is False although the model features are {after["mfl"]}')
+            except Exception as e:
+                fail('detectors complete without an exception', f'{h}: {_exc_detail(e)}')
+        g = graph_features(m)
+        if g['lag'] != after['lag'] or g['bio'] != after['bio']:
+            fail('detectors agree with the compartment graph (lag time, bioavailability)',
+                 f'graph {g}, detectors lag={after["lag"]} bio={after["bio"]}')
+        # every symbol defined, model evaluable
+        for pt in _grid(m, 2):
+            try:
+                eval_model(m, pt)
+            except Undefined as e:
+                fail('every symbol used in the result is defined', str(e))
+                break
+        # idempotence: f;f ~ f
+        try:
+            m2 = run(m)
+            _equivalent(fail, 'requesting the same feature again does not change the model', m, m2, K, True)
+        except Exception as e:
+            if not _is_refusal(e):
+                fail('a request either succeeds or is refused with ValueError/NotImplementedError, never an '
+                     'internal error', f'on repeating the request: {_exc_detail(e)}')
+        # reversibility: f;undo f ~ before
+        if after[cat] == val and before[cat] != val and not other:
+            un = _undo_request(before, cat)
+            back = expected_state(after, cat, before[cat])
+            if any(back[k] != before[k] for k in back):
+                un = None   # the undo request has a documented coupling that changes another category
+            if un is not None:
+                ufn, urun, _ = R[un]
+                f2 = _Fails(_fid(ufn), tag + f' then undo with {un}')
+                try:
+                    m3 = urun(m)
+                    _equivalent(f2, 'undoing a feature restores a model equivalent to the one before (up to initial '
+                                    'estimates)', prev, m3, K, False)
+                except Exception as e:
+                    if _is_refusal(e):
+                        f2('undoing a feature restores a model equivalent to the one before (up to initial '
+                           'estimates)', f'undo refused: {type(e).__name__}: {str(e)[:150]}')
+                    else:
+                        f2('a request either succeeds or is refused with ValueError/NotImplementedError, never '
+                           'an internal error', _exc_detail(e))
+                fail.items.extend(f2.items)
+        fails.extend(fail.items)
+    return {'nontrivial': not info['refused'], 'fails': fails, 'refused': info['refused']}
+
+
+def _structural_worker(args):
+    case, tier = args
+    try:
+        return case, run_structural_case(case, tier)
+    except Exception:
+        return case, {'nontrivial': False, 'fails': [('contracts/b_ext.py:run_structural_case', 'checker error',
+                                                      repr(case) + ' ' + traceback.format_exc()[-700:])]}
+
+
+def bounded_structural_setters(tier):
+    pm()
+    for b in ('pheno', 'moxo'):
+        base_model(b)
+    cases = structural_cases(tier)
+    results = _pool_map(_structural_worker, [(c, tier) for c in cases])
+    nontriv, fails = _collect(results, 'bounded_structural_setters_replay')
+    refused = sum(1 for _, r in results if r.get('refused'))
+    return {
+        'cases': len(cases), 'nontrivial': nontriv, 'refused_or_precondition_unmet': refused,
+        'bound': 'pheno and moxo x all sequences of <= 2 requests'
+                 + (' and all sequences of 3 requests from 3 different categories' if tier == 'thorough' else '')
+                 + ' over the 18 requests {absorption FO/ZO/SEQ-ZO-FO/INST, elimination FO/ZO/MM/MIX-FO-MM, peripherals '
+                   '0/1/2, transits 0/1/3, lag time on/off, bioavailability on/off}; contract checked at the last '
+                   'request, with f;f and f;undo',
+        'samples': [repr(cases[i]) for i in (0, len(cases) // 2, len(cases) - 1)],
+        'fails': fails,
+    }
+
+
+def bounded_structural_setters_replay(rp):
+    res = run_structural_case(rp['case'], rp.get('tier', 'quick'))
     want = rp.get('clause')
     for fid, clause, detail in res['fails']:
         if want is None or clause == want:
